@@ -340,3 +340,86 @@ func provenNil(v ssa.Value, at *ssa.BasicBlock) bool {
 	}
 	return false
 }
+
+// DefKind classifies what an instruction does to an abstract location.
+type DefKind int
+
+const (
+	DefNone    DefKind = iota
+	DefStrong          // overwrites the location with Val
+	DefWeak            // may change part of the location (adds Val)
+	DefUnknown         // the location may be rewritten by code we do not see (address escapes to a call)
+)
+
+// ReachingDefs is a generic flow-sensitive reaching-definitions analysis for one
+// abstract location of a function. classify tells what each instruction does.
+// The query returns the set of values that may be in the location before `at`
+// (Zero for the initial zero value, Unknown after an unknown definition).
+func ReachingDefs(fn *ssa.Function, classify func(ssa.Instruction) (DefKind, ssa.Value)) func(at ssa.Instruction) []ssa.Value {
+	type set map[ssa.Value]bool
+	in := make([]set, len(fn.Blocks))
+	out := make([]set, len(fn.Blocks))
+	transfer := func(b *ssa.BasicBlock, s set, upto ssa.Instruction) set {
+		cur := set{}
+		for k := range s {
+			cur[k] = true
+		}
+		for _, ins := range b.Instrs {
+			if ins == upto {
+				break
+			}
+			k, v := classify(ins)
+			switch k {
+			case DefStrong:
+				cur = set{v: true}
+			case DefWeak:
+				cur[v] = true
+			case DefUnknown:
+				cur = set{Unknown: true}
+			}
+		}
+		return cur
+	}
+	for i := range in {
+		in[i] = set{}
+		out[i] = set{}
+	}
+	in[0] = set{Zero: true}
+	for changed := true; changed; {
+		changed = false
+		for _, b := range fn.Blocks {
+			if b.Index != 0 {
+				ns := set{}
+				for _, p := range b.Preds {
+					for k := range out[p.Index] {
+						ns[k] = true
+					}
+				}
+				if len(ns) != len(in[b.Index]) {
+					in[b.Index] = ns
+					changed = true
+				}
+			}
+			no := transfer(b, in[b.Index], nil)
+			if len(no) != len(out[b.Index]) {
+				changed = true
+			} else {
+				for k := range no {
+					if !out[b.Index][k] {
+						changed = true
+					}
+				}
+			}
+			out[b.Index] = no
+		}
+	}
+	return func(at ssa.Instruction) []ssa.Value {
+		b := at.Block()
+		s := transfer(b, in[b.Index], at)
+		var vs []ssa.Value
+		for k := range s {
+			vs = append(vs, k)
+		}
+		return vs
+	}
+}
